@@ -110,6 +110,16 @@ theorem C02_reader_exit {μ : Type} (obf : Bool) (decode : Bytes → Option μ) 
     ∃ (ms : List μ) (c : Close), reader obf decode s = ms.map Event.deliver ++ [Event.closed c] :=
   readerAux_exit obf decode _ s
 
+/-- **A frame that never completes does not park the reader.** When the same bytes are followed by
+silence instead of EOF (a truncated header, a body shorter than its header announces — a *lying
+length* — or simply an idle connection), everything complete before that point is delivered exactly
+as it would have been, and the run ends with the connection being closed by the read time-out:
+the reader never waits for ever while the connection stays open. -/
+theorem C02_silence_times_out {μ : Type} (obf : Bool) (decode : Bytes → Option μ) (s : Bytes) :
+    ∃ (ms : List μ) (c : Close), reader obf decode s = ms.map Event.deliver ++ [Event.closed c] ∧
+      readerSilent obf decode s = ms.map Event.deliver ++ [Event.closed .timeout] :=
+  readerSilentAux_spec obf decode _ s
+
 /-- **Segmentation**: the model reader is a function of the concatenated stream only. (That the
 implementation is, too — `StreamReader.readexactly` — is what the correspondence checks.) -/
 theorem C02_segmentation {μ : Type} (obf : Bool) (decode : Bytes → Option μ) (segs₁ segs₂ : List Bytes)
@@ -152,5 +162,8 @@ example : reader false (fun b => if b.length = 6 then some b else none)
     = [.deliver [2, 0, 0, 0, 9, 9], .deliver [2, 0, 0, 0, 7, 7], .closed .eof] := by decide
 example : reader false (fun b => some b) [1, 0, 0] = [.closed .readError] := by decide
 example : reader false (fun b => some b) [5, 0, 0, 0] = [.closed .eof] := by decide
+-- a header announcing 1 MiB followed by 3 bytes and silence: the complete frame before it is delivered, then time-out
+example : readerSilent false (fun b => some b) [1, 0, 0, 0, 7, 0, 0, 16, 0, 1, 2, 3]
+    = [.deliver [1, 0, 0, 0, 7], .closed .timeout] := by decide
 
 end AioslskVerif.C02
